@@ -2,6 +2,7 @@
 //! — DESIGN.md §7.1.  Each sub-command replays TLC-generated cases into the real code (B3).
 mod c06;
 mod c07;
+mod c09;
 mod vals;
 
 fn main() {
@@ -10,6 +11,7 @@ fn main() {
     match cmd {
         "c06" => c06::main(),
         "c07" => c07::main(),
+        "c09" => c09::main(),
         _ => {
             eprintln!("usage: vops2 <c06|c07|c09> --in FILE --out FILE");
             std::process::exit(2);
